@@ -61,6 +61,9 @@ fn spellings() -> Vec<Spelling> {
     v.push(sp("DATA [\"q\"]"));
     v.push(sp("DATA [1],"));
     v.push(sp("DATA ,[x]"));
+    // an unquoted item that holds a lone quote, and a quoted item with a colon in second place
+    v.push(sp("DATA [6\"]"));
+    v.push(sp("DATA [1],[\"c:D\"]"));
     v
 }
 
